@@ -60,9 +60,6 @@ theorem C08_buildSteps_accepted_run (S : Spec) (c : Config) (hc : CfgOK S c) (pi
     accepts S (buildSteps S pid c fs) = true :=
   C08_buildSteps_accepted S c hc pid _ (run_isTrace (buildProg c) fs)
 
-/-- no file named with one of the configuration's temp tokens is lying around -/
-def TokFresh (c : Config) (fs : FS) : Prop := ∀ p, IsTok c p → fs.files p = none
-
 /-- Recovery: from ANY state in which the final-named files are complete (temp debris of killed builds
     included), the build returns normally, leaves every final-named file complete and correct, and the
     binary it loads exists, is closed and is the correct one. -/
